@@ -52,7 +52,7 @@ Definition witness_enable : list (event Z expr) :=
    PassBegin; PassRead 0%nat; PassRead 1%nat; PassRead 2%nat; PassEnd].
 
 Lemma C01_enable_old_refuted_b :
-  match hrun true false false [0%nat; 1%nat; 2%nat] (init [Some 5; Some 1; Some 0]) witness_enable with
+  match hrun true false true [0%nat; 1%nat; 2%nat] (init [Some 5; Some 1; Some 0]) witness_enable with
   | Some s => quiescent_b s && negb (follows_b s 2%nat)
   | None => false
   end = true.
@@ -75,8 +75,54 @@ Definition witness_disable_busy : list (event Z expr) :=
    PassBegin; PassRead 0%nat; PassRead 1%nat; PassEnd].
 
 Lemma C01_disable_busy_refuted_b :
-  match hrun true true false [0%nat; 1%nat] (init [Some 1; Some 1]) witness_disable_busy with
+  match hrun true true true [0%nat; 1%nat] (init [Some 1; Some 1]) witness_disable_busy with
   | Some s => quiescent_b s && negb (follows_b s 1%nat)
+  | None => false
+  end = true.
+Proof. vm_compute. reflexivity. Qed.
+
+(* disable() that does not force the evaluation of all expressions (the code before the fix "disabling a port did not
+   re-evaluate the expressions reading it"; [disable_forces_all = false]): p1 = DEFAULT($p0, 1) follows p0 = 5; p0 is disabled,
+   at rest; no value changed, so no pass ever evaluates the expression of p1 again: the hub is quiescent with p1 = 5, while
+   the expression is worth 1 now ($p0 is an error, which DEFAULT catches).  The premise [disable_forces_all = true] of
+   C01_convergence is necessary. *)
+Definition e_default : expr := Call "DEFAULT" [PortVal "p0"; Lit (Some (VInt 1))].
+Definition witness_disable : list (event Z expr) :=
+  [SetExpr 1%nat e_default;
+   PassBegin; PassRead 0%nat; PassRead 1%nat; PassEnd; Eval 1%nat;                 (* forced evaluation: 5 = 5, nothing to do *)
+   Disable 0%nat;
+   PassBegin; PassSkip 0%nat; PassRead 1%nat; PassEnd].                            (* nothing changed, nothing forced *)
+
+Lemma C01_disable_old_refuted_b :
+  match hrun true true false [0%nat; 1%nat] (init [Some 5; Some 5]) witness_disable with
+  | Some s => quiescent_b s && negb (follows_b s 1%nat)
+  | None => false
+  end = true.
+Proof. vm_compute. reflexivity. Qed.
+
+Lemma C01_disable_old_refuted :
+  exists s, hrun true true false [0%nat; 1%nat] (init [Some 5; Some 5]) witness_disable = Some s
+            /\ quiescent_b s = true /\ follows_b s 1%nat = false.
+Proof.
+  pose proof C01_disable_old_refuted_b as H.
+  destruct (hrun true true false [0%nat; 1%nat] (init [Some 5; Some 5]) witness_disable) as [s|]; [|discriminate].
+  exists s. apply andb_true_iff in H. destruct H as [H1 H2]. apply negb_true_iff in H2. repeat split; assumption.
+Qed.
+
+(* the model of the fixed code is not at rest after the same trace (the pass that follows disable() queued an evaluation for
+   p1); it goes on: evaluation over the live flags gives 1, written, read back — quiescent, p1 holds 1 and follows (this is
+   also the non-vacuity witness of C01_convergence for an expression that reads a disabled port) *)
+Lemma C01_disable_witness_not_at_rest_when_fixed :
+  match hrun true true true [0%nat; 1%nat] (init [Some 5; Some 5]) witness_disable with
+  | Some s => negb (quiescent_b s)
+  | None => false
+  end = true.
+Proof. vm_compute. reflexivity. Qed.
+
+Lemma C01_disable_followed_when_fixed :
+  match hrun true true true [0%nat; 1%nat] (init [Some 5; Some 5])
+             (witness_disable ++ [Eval 1%nat; WriteEnd 1%nat; PassBegin; PassSkip 0%nat; PassRead 1%nat; PassEnd]) with
+  | Some s => quiescent_b s && follows_b s 1%nat && veqb (src (Hub.ports s 1%nat)) (Some 1)
   | None => false
   end = true.
 Proof. vm_compute. reflexivity. Qed.
